@@ -65,7 +65,10 @@ def run(ctx):
                           dict(world=x_hcheck.world_json(world), history=hist))
         ctx.count("verify-runs")
 
-    x_hcheck.run_histories(ctx, ctx.n(220, 6000), monitor=monitor, tag="c15")
+    # the storage hook is part of the configuration: a hook whose template names an unknown placeholder, and one that
+    # exits with an error, must change neither an answer nor the store (every layout is compared with the first)
+    x_hcheck.run_histories(ctx, ctx.n(220, 6000), monitor=monitor, tag="c15",
+                           layouts=({}, {"hook": "echo %(collection)s changed by %(user)s"}, {"hook": "exit 3"}))
     # bodies outside the abstract grammar of the model: monitored directly on the stored files
     from vlib import x_scenarios
     x_scenarios.whole_upload_fidelity(ctx, ctx.n(60, 1500))
